@@ -7,6 +7,8 @@ pub mod c02;
 pub mod c03;
 pub mod c04;
 pub mod c05;
+pub mod c06;
+pub mod c07;
 pub mod c13;
 #[cfg(feature = "sched")]
 pub mod c14;
@@ -22,6 +24,8 @@ pub fn run(id: &str, o: &Opts, stats: &mut Stats) -> Option<usize> {
         "C03" => c03::run(o, stats),
         "C04" => c04::run(o, stats),
         "C05" => c05::run(o, stats),
+        "C06" => c06::run(o, stats),
+        "C07" => c07::run(o, stats),
         "C13" => c13::run(o, stats),
         #[cfg(feature = "sched")]
         "C14" => c14::run(o, stats),
